@@ -315,6 +315,14 @@ impl Runner {
             op = "Down".to_string();
         }
         match op.as_str() {
+            "FailStorage" => {
+                // every transaction the SERVER begins from now on fails (the harness's own projection does not)
+                if let Some(c) = self.counting.as_ref() {
+                    c.fail_all.store(s["on"].as_bool().unwrap_or(true), std::sync::atomic::Ordering::SeqCst);
+                }
+                resp = RespRec::kind("reopened");
+                req["op"] = json!("Reopen");
+            }
             "Down" => {
                 req["op"] = s["op"].clone();
                 resp = RespRec { kind: "error".into(), msg: "server not running".into(), ..Default::default() };
@@ -620,7 +628,10 @@ impl Runner {
             "st": Self::st_json(&ds),
             "div": div || sdiv,
         });
-        if op == "Walk" {
+        if op == "Walk" || s["op"] == "Walk" {
+            if op != "Walk" {
+                walk = json!({"from": 0, "seq": [], "term": "error"});
+            }
             ev["walk"] = walk;
         }
         if let Some(h) = http.as_ref() {
